@@ -105,6 +105,27 @@ def run(R):
         f = rand_ctls_state(rng, rng.randint(2, 3))
         extra.append((kd, f))
     run_mc(R, 'CTLS', extra, label='_shared_label_sets', alias_every=1)
+    # structures that ALREADY carry labels spelled like the fresh names the elimination will generate for the quantified
+    # subformulas of the very formula being checked ('[' + str(subformula) + ']' and its first fallback), on arbitrary states:
+    # the checker must not mistake such a label for the truth set of the subformula (the theorem has no hypothesis on K's labels)
+    import pyModelChecking.CTLS as CTLS
+    stale = []
+    for _ in range(4000 if R.thorough else 400):
+        kd = rand_kripke(rng, rng.randint(2, 5))
+        f = rand_ctls_state(rng, rng.randint(2, 3))
+        qs = [g for g in subformulas(f) if g[0] in ('A', 'E')]
+        if not qs:
+            continue
+        kd = dict(kd)
+        kd['L'] = {s: list(ls) for s, ls in kd['L'].items()}
+        for g in rng.sample(qs, min(len(qs), 2)):
+            name = '[%s]' % str(to_py(g, CTLS))
+            for nm in ([name] if rng.random() < 0.7 else [name, '[%s(0)]' % name]):
+                for s in kd['S']:
+                    if rng.random() < 0.5:
+                        kd['L'][s].append(nm)
+        stale.append((kd, f))
+    run_mc(R, 'CTLS', stale, label='_stale_fresh_looking_labels', alias_every=4)
 
 
 def replay(R, data):
